@@ -12,6 +12,9 @@ Parts
                  both must keep agreeing bit for bit;
            (iii) integrate(t_current) leaves a full snapshot unchanged;
            (v)   the caller's y0 array and constants dict compare equal to deep copies taken before construction.
+  reset_after_blowup  (enumerated) every fixed-step explicit / splitting method x direction x dense x dt: run y' = y^2 past
+           its pole (the state overflows without an exception), reset(), integrate a short span: bit for bit what a fresh
+           system gives.
   split    integrate(T) against integrate(T1); ...; integrate(T) on linear problems with exact solutions:
            (iv) both within the accuracy bound and |y_split - y_whole| <= 50 max(err_whole, err_split, floor).
 """
@@ -90,9 +93,20 @@ def _split(draw):
                 rtol=draw(st.sampled_from([1e-5, 1e-7])), atol=1e-7, dense=draw(st.booleans()), cuts=cuts)
 
 
+def _blowup_cases():
+    """reset() after a numerically blown-up run: fixed-step explicit and splitting methods step over the pole of
+    y' = y^2 without noticing and leave inf / nan behind ("whatever happened before" includes that)"""
+    for method in [n for n in M.names("all") if M.family(n) in ("explicit_fixed", "splitting")]:
+        for direction in (1.0, -1.0):
+            for dense in (False, True):
+                for dt in (0.25, 0.1):
+                    yield dict(part="reset_after_blowup", method=method, direction=direction, dense=dense, dt=dt, t0=0.0 if direction > 0 else 1.0)
+
+
 def parts(tier):
     q = tier == "quick"
-    return [Part("history", strategy=_history(), examples=300 if q else 6000, timeout=600),
+    return [Part("reset_after_blowup", enumerate=_blowup_cases, timeout=120, exhaustive=True),
+            Part("history", strategy=_history(), examples=300 if q else 6000, timeout=600),
             Part("split", strategy=_split(), examples=300 if q else 6000, timeout=300)]
 
 
@@ -364,5 +378,44 @@ def _check_split(case):
     return viols, dict(nontrivial=bool(len(case["cuts"]) >= 2 or fam in ("embedded", "implicit_embedded", "richardson")), labels=labels)
 
 
+def _check_blowup(case):
+    import desolver as de
+    method = case["method"]
+    attrs = dict(method=method, family=M.family(M.get(method)))
+    sgn = case["direction"]
+
+    def build():
+        a = de.OdeSystem(lambda t, y, **kw: sgn * y * y, y0=np.array([2.0, 1.0]), t=(case["t0"], case["t0"] + sgn * 2.0), dense_output=case["dense"], dt=case["dt"], rtol=1e-6, atol=1e-6)
+        a.method = M.get(method)
+        return a
+    viols = []
+    with np.errstate(all="ignore"):
+        a = build()
+        try:
+            a.integrate()
+        except de.exception_types.FailedIntegration:
+            pass
+        blown = not np.all(np.isfinite(np.asarray(a.y)))
+        a.reset()
+        fresh = build()
+        target = np.float64(case["t0"] + sgn * 0.25)
+        ra = rb = "ok"
+        try:
+            a.integrate(target)
+        except de.exception_types.FailedIntegration as e:
+            ra = "failed:" + type(e.__cause__).__name__
+        try:
+            fresh.integrate(target)
+        except de.exception_types.FailedIntegration as e:
+            rb = "failed:" + type(e.__cause__).__name__
+    ta, ya, tb, yb = np.asarray(a.t), np.asarray(a.y), np.asarray(fresh.t), np.asarray(fresh.y)
+    if ra != rb or len(ta) != len(tb) or not np.array_equal(ta, tb) or not np.array_equal(ya, yb, equal_nan=True):
+        viols.append(V("reset_after_blowup", "{}: after a run that overflowed (y' = y^2 past its pole), reset() and integrate({!r}) give {} / final state {} while a fresh system gives {} / {}".format(
+            method, float(target), ra, ya[-1].tolist(), rb, yb[-1].tolist()), "blowup", **attrs))
+    return viols, dict(nontrivial=bool(blown), labels=["blowup:" + method, "blown" if blown else "not_blown"])
+
+
 def check(case):
+    if case["part"] == "reset_after_blowup":
+        return _check_blowup(case)
     return _check_history(case) if case["part"] == "history" else _check_split(case)
